@@ -111,6 +111,22 @@ def must_accept(e, shape, flat):
     return True
 
 
+def known_f15(case):
+    """F15: a tuple whose Ellipsis expands to zero dimensions and separates advanced indices (NumPy then moves
+    the advanced dimensions to the front; OpenMDAO replaces the Ellipsis by nothing and keeps them in place)."""
+    e = case['idx']
+    if e == '...' or 't' not in e or '...' not in e['t']:
+        return False
+    parts = e['t']
+    k = parts.index('...')
+    if len(parts) - 1 != len(case['shape']):
+        return False
+    adv = lambda p: ('a' in p) or ('i' in p)
+    if not (any(adv(p) for p in parts[:k]) and any(adv(p) for p in parts[k + 1:])):
+        return False
+    return any('a' in p for p in parts if p != '...')
+
+
 def known_f4(case):
     """F4: non-tuple int / 1-D int array on a non-flat source of rank >= 2."""
     e = case['idx']
@@ -160,6 +176,8 @@ def check(case):
         return res
     cls.append('accepted')
     sigbase = 'F4-nontuple-on-nd-nonflat' if known_f4(case) else 'idx'
+    if known_f15(case):
+        sigbase = 'F15-zerolen-ellipsis-between-advanced'
 
     def getter(name, f):
         try:
